@@ -359,9 +359,10 @@ class System:
                 leaves.append(("bool", v))
                 return ("B",)
             if isinstance(v, Tup):
-                return ("T", v.name, tuple(v.fnames) if v.fnames else None, tuple(go(x) for x in v.fields))
+                # (shape comparison is by structure: the type name may be spelled with or without its module path)
+                return ("T", short_name(v.name), None, tuple(go(x) for x in v.fields))
             if isinstance(v, Adt):
-                return ("A", v.name, v.variant, tuple(go(x) for x in v.fields))
+                return ("A", short_name(v.name), v.variant, tuple(go(x) for x in v.fields))
             if isinstance(v, VecV):
                 return ("V", v.kind, tuple(go(x) for x in v.elems))
             if isinstance(v, Ref):
@@ -726,6 +727,12 @@ class System:
     # -- encoding
     def encode(self, K, por=True):
         return Unrolling(self, K, por)
+
+
+def short_name(n):
+    if n is None or n.startswith("{"):
+        return n
+    return P.split_path(P.strip_generics(n))[-1]
 
 
 def skel_diff(a, b, path=""):
